@@ -43,9 +43,23 @@ CrashFailing(r) ==
                                                 IF r.out_complete THEN "complete" ELSE "partial", FALSE))
         \/ c = "Untouched" /\ r.input_present_after /\ ~r.input_unchanged }
 
+\* kind "multi": one behaviour of CleanWriteN (several files; every step of every file may fail, the process may
+\* die) emitted by TLC and REPLAYED through the real `-j -c`: r.files = per file the final state of the
+\* behaviour (spec_input, spec_out) and the state of the disk afterwards (real_input, real_out in "absent" |
+\* "incomplete" | "complete").  The disk must agree with the behaviour, and CleanWriteN!Safe must hold on it.
+MultiFailing(r) ==
+    {c \in {"MultiSafe", "MultiInput", "MultiOutput"} :
+        \/ c = "MultiSafe" /\ \E k \in 1..Len(r.files) :
+                                 r.files[k].real_input = "removed" /\ r.files[k].real_out # "complete"
+        \/ c = "MultiInput" /\ \E k \in 1..Len(r.files) : r.files[k].real_input # r.files[k].spec_input
+        \/ c = "MultiOutput" /\ \E k \in 1..Len(r.files) :
+                                   \/ (r.files[k].spec_out = "absent") # (r.files[k].real_out = "absent")
+                                   \/ r.files[k].spec_out = "complete" /\ r.files[k].real_out # "complete" }
+
 Failing(r) ==
     IF ~r.shape_ok \/ \E k \in 1..Len(r.events) : r.events[k] \notin Known THEN {"Shape"}
     ELSE IF r.kind = "crash" THEN CrashFailing(r)
+    ELSE IF r.kind = "multi" THEN MultiFailing(r)
     ELSE {c \in {"Safe", "ModelMatchesDisk", "RemovedOnlyIfComplete", "Untouched", "NoRemoveWithoutClean",
                  "OneRemoveAtMost"} :
           \/ c = "Safe" /\ ~SafeEverywhere(r)
